@@ -314,6 +314,37 @@ def _hasattr(E, s, args, kw):
     return ok(s, res is not None)
 
 
+def _getattr_builtin(E, s, args, kw):
+    """getattr(obj, name[, default]).  A concrete name is an attribute access.  A name that
+    is not a constant selects among the methods the class defines: one path per method of
+    the object's class (each an over-approximation: the name is not constrained further)
+    plus the default / AttributeError path -- every dispatch target is then subject to its
+    own contract at the call site."""
+    obj, name = args[0], args[1]
+    has_default = len(args) > 2
+    if isinstance(name, str):
+        r = getattr_value(E, s, obj, name, missing_ok=has_default)
+        return ok(s, args[2]) if r is None else r
+    if not (isinstance(obj, Ref) and isinstance(s.cell(obj), ObjCell) and isinstance(s.cell(obj).cls, ClassRef)):
+        raise Unsupported("getattr with a computed name on an object of unknown class")
+    cls = s.cell(obj).cls
+    prefix = None
+    if isinstance(name, SStr):
+        t = name.t
+        if z3.is_app(t) and t.decl().kind() == z3.Z3_OP_SEQ_CONCAT and z3.is_string_value(t.arg(0)):
+            prefix = t.arg(0).as_string()
+    if not prefix:
+        raise Unsupported(f"getattr with a computed name on {cls.name}: no constant prefix in the name")
+    out = []
+    for b in cls.node.body:
+        if isinstance(b, ast.FunctionDef) and b.name.startswith(prefix):
+            s2 = s.fork()
+            out.extend(getattr_value(E, s2, obj, b.name))
+    s3 = s.fork()
+    out.extend(ok(s3, args[2]) if has_default else E.raise_(s3, "AttributeError", "computed name"))
+    return out
+
+
 def _map(E, s, args, kw):
     f, it = args
     items = E.iter_concrete(s, it)
@@ -345,7 +376,7 @@ _B = {
     "len": _len, "range": _range, "isinstance": _isinstance, "bool": _bool, "int": _int, "str": _str,
     "min": _minmax("min"), "max": _minmax("max"), "enumerate": _enumerate, "reversed": _reversed,
     "all": _allany("all"), "any": _allany("any"), "print": _print, "type": _type, "super": _super,
-    "list": _list, "tuple": _tuple, "hasattr": _hasattr, "map": _map, "next": _next, "abs": _abs,
+    "list": _list, "tuple": _tuple, "hasattr": _hasattr, "getattr": _getattr_builtin, "map": _map, "next": _next, "abs": _abs,
 }
 
 
@@ -579,7 +610,10 @@ def _getattr(E, s, v, attr):
     if isinstance(v, (str, SStr, SStrV)):
         return str_method(E, s, v, attr)
     if isinstance(v, SKind):
-        if attr in ("upper", "lower", "startswith"):
+        if attr in ("upper", "lower"):
+            # the case-mapped spelling of a kind name: an unknown string (over-approximation)
+            return ok(s, method(f"kind.{attr}", lambda E_, s_, a, k: ok(s_, SStr(z3.String(fresh_name("kind_" + attr))))))
+        if attr == "startswith":
             raise Unsupported(f"str.{attr} on a kind string")
         return None
     if isinstance(v, Tok):
@@ -859,6 +893,14 @@ def str_method(E, s, v, attr):
     def lower(E_, s_, a, k):
         if isinstance(v, str):
             return ok(s_, v.lower())
+        if "str.lower" in E_.models:
+            return E_.models["str.lower"](E_, s_, [v], {})
+        if isinstance(v, SStr):
+            # over-approximation: an arbitrary string of the same length (pure)
+            r = z3.String(fresh_name("lowered"))
+            s_.assume(z3.Length(r) == z3.Length(v.t))
+            s_.notes.append("str.lower on a symbolic string is over-approximated by an arbitrary string of the same length")
+            return ok(s_, SStr(r))
         raise Unsupported("str.lower on a symbolic string")
 
     def replace(E_, s_, a, k):
